@@ -117,7 +117,7 @@ def _split_known(ctx, r):
 
 def run_c47(ctx, pid):
     quick = ctx.quick
-    pool = ThreadPoolExecutor(4 if quick else 3)
+    pool = ThreadPoolExecutor(5 if quick else 3)
     # 1. design (exhaustive, bounded).  MC_Breaker_race.cfg: the repaired design with the interleaving point inside tryAcquire (it
     #    subsumes MC_Breaker.cfg: a Park immediately followed by Resume is the atomic Begin); MC_Breaker_race_asis.cfg: the code as
     #    it is (Defects = {"StaleHalfOpen"}) must violate a rule, otherwise the Defects branch is stale.
@@ -125,6 +125,8 @@ def run_c47(ctx, pid):
     f_asis = pool.submit(ctx.tlc, BSPEC, "MC_Breaker_race_asis.cfg", module="MC_Breaker", timeout=900, workers=2, expect_fail=True, name="race-asis")
     # 2. behaviours out of TLC
     f_grace = pool.submit(ctx.tlc, BSPEC, "Gen_Breaker_race.cfg", module="Gen_Breaker", workers=1, deadlock_check=False, timeout=1800, name="cover-race")
+    # a single caller with a long clock (idle windows, realignment of the buckets): deep in time, narrow in concurrency
+    f_gidle = pool.submit(ctx.tlc, BSPEC, "Gen_Breaker_idle.cfg", module="Gen_Breaker", workers=1, deadlock_check=False, timeout=1800, name="cover-idle")
     f_sim = pool.submit(ctx.tlc, BSPEC, "Sim_Breaker.cfg", module="Gen_Breaker", simulate="num=%d" % (120 if quick else 1500), depth=41,
                         deadlock_check=False, workers=1, timeout=1800, name="sim-p2")
     extra = {}
@@ -147,7 +149,11 @@ def run_c47(ctx, pid):
         raise vlib.Infra("transition cover produced too little (%d, %d)" % (len(with_k), len(without_k)))
     if len(walks) < 500 or any(len(b) != 40 for b in walks):
         raise vlib.Infra("random walk generation produced too little (%d)" % len(walks))
-    race = (vlib.sample(ctx.rng, with_k, 1500) + vlib.sample(ctx.rng, without_k, 700)) if quick else race_all
+    idle_all = _behaviours(f_gidle.result().out)
+    if len(idle_all) < 10000:
+        raise vlib.Infra("idle cover produced too little (%d)" % len(idle_all))
+    idle = vlib.sample(ctx.rng, idle_all, 600) if quick else idle_all
+    race = ((vlib.sample(ctx.rng, with_k, 1500) + vlib.sample(ctx.rng, without_k, 700)) if quick else race_all) + idle
     cover1 = cover2 = []
     if not quick:
         for k in ("mc1", "mc2", "ideal"):
@@ -155,11 +161,12 @@ def run_c47(ctx, pid):
         cover1 = _behaviours(extra["g1"].result().out)
         cover2_all = _behaviours(extra["g2"].result().out)
         cover2 = vlib.sample(ctx.rng, cover2_all, 30000)      # 361 755 transitions in the P2 graph: a seeded sample of them
-    ctx.log("behaviours: %d of %d covering histories of the split model (P1; %d park a caller inside tryAcquire), %d + %d covering "
+    ctx.log("behaviours: %d of %d covering histories of the split model incl. %d of %d single-caller long-clock ones (P1; %d park a caller inside tryAcquire), %d + %d covering "
             "histories of the unsplit model (P1, P2), %d random walks (P2)"
-            % (len(race), len(race_all), sum(1 for b in race if any(o.startswith("K:") for o in b)), len(cover1), len(cover2), len(walks)))
+            % (len(race), len(race_all) + len(idle_all), len(idle), len(idle_all), sum(1 for b in race if any(o.startswith("K:") for o in b)),
+               len(cover1), len(cover2), len(walks)))
     p1, p2 = _cfg_params(BSPEC, "Gen_Breaker_race.cfg"), _cfg_params(BSPEC, "Sim_Breaker.cfg")
-    for cfg, pp in (("Trace_BreakerAbs.cfg", p1), ("Trace_Breaker.cfg", p1), ("Trace_Breaker_race.cfg", p1), ("Gen_Breaker.cfg", p1),
+    for cfg, pp in (("Gen_Breaker_idle.cfg", p1), ("Trace_BreakerAbs.cfg", p1), ("Trace_Breaker.cfg", p1), ("Trace_Breaker_race.cfg", p1), ("Gen_Breaker.cfg", p1),
                     ("Trace_BreakerAbs_p2.cfg", p2), ("Trace_Breaker_p2.cfg", p2), ("Gen_Breaker_t.cfg", p2)):
         if _cfg_params(BSPEC, cfg) != pp:
             raise vlib.Infra("parameter set of %s differs from the generator's" % cfg)
@@ -211,11 +218,12 @@ def run_c47(ctx, pid):
         "evaluations": len(behaviours), "distinct_nontrivial": distinct_nt,
         "rule": "P1: for every transition of the bounded state graph of Breaker.tla with the interleaving point inside tryAcquire "
                 "(Gen_Breaker_race.cfg, the model of the code as it is) a shortest history taking it (quick: seeded sample of 1500 that park "
-                "a caller at the hook + 700 that do not; thorough: all, plus the cover of the unsplit model Gen_Breaker.cfg (P1) and a "
+                "a caller at the hook + 700 that do not + 600 of the cover of Gen_Breaker_idle.cfg (one caller, clock up to 9: idle windows); "
+                "thorough: all, plus the cover of the unsplit model Gen_Breaker.cfg (P1) and a "
                 "seeded sample of 30000 of the cover of Gen_Breaker_t.cfg (P2)); P2: TLC random walks of depth 40 over 3 callers and 5 outcomes (TLC emits each walk with every "
                 "alternative last step); every history is finished by resuming parked callers, completing the calls in flight and reading "
                 "the metrics; non-trivial = at least two failing outcomes and a clock tick",
-        "events_validated": sum(r["lines"] for r in reps), "covering_histories_total_split_model": len(race_all),
+        "events_validated": sum(r["lines"] for r in reps), "covering_histories_total_split_model": len(race_all), "covering_histories_total_idle_model": len(idle_all),
         "covering_histories_run": len(race) + len(cover1) + len(cover2), "random_walks": len(walks),
         "histories_with_concurrent_callers": concurrent,
         "race_parks": r3["stats"]["parks"], "race_stale_resumes_on_real_code": r3["stats"]["stale_resumes"],
